@@ -49,16 +49,21 @@ def tree_hash():
     return h.hexdigest()[:24]
 
 
+E1_FILES = ["absint.py", "models.py", "loops.py", "inv.py", "crate.py", "lin.py", "values.py", "facts.py", "axioms.py"]
+
+
 def engine_hash():
+    """hash of everything the cached E1 result depends on (not the rule modules that only read it)"""
     h = hashlib.sha256()
-    files = sorted(glob.glob(os.path.join(VERIF, "engine", "*.py"))) + \
-        [os.path.join(DRIVER_DIR, "src", "main.rs"), os.path.join(VERIF, "axioms.json")]
+    files = [os.path.join(VERIF, "engine", f) for f in E1_FILES] + [os.path.join(DRIVER_DIR, "src", "main.rs")]
     for f in files:
-        try:
-            with open(f, "rb") as fh:
-                h.update(fh.read())
-        except OSError:
-            pass
+        with open(f, "rb") as fh:
+            h.update(fh.read())
+    try:
+        with open(os.path.join(VERIF, "axioms.json")) as fh:
+            h.update(json.dumps(json.load(fh).get("trusted_construction_contexts", []), sort_keys=True).encode())
+    except OSError:
+        pass
     return h.hexdigest()[:12]
 
 
@@ -99,7 +104,9 @@ def sysroot():
 
 def facts_path(config="std", th=None):
     th = th or tree_hash()
-    return os.path.join(CACHE, "facts-%s-%s-%s.json" % (th, engine_hash(), config))
+    with open(os.path.join(DRIVER_DIR, "src", "main.rs"), "rb") as fh:
+        dh = hashlib.sha256(fh.read()).hexdigest()[:12]
+    return os.path.join(CACHE, "facts-%s-%s-%s.json" % (th, dh, config))
 
 
 def ensure_facts(config="std", th=None):
